@@ -119,7 +119,9 @@ pub fn traverse(world: &WorldRef, with_shx: bool, rstack: StackCfg, n_expected: 
             let x = it.next();
             let end = evs(world);
             let res = x.map(|x| x.map(|s| capture(&s)).map_err(|e| classify(&e)));
-            let stop = !matches!(res, Some(Ok(_)));
+            // with an index the iterator can go on to the next entry after an error (and a
+            // caller may well do so): whatever it then yields at rank k must be record k
+            let stop = res.is_none() || (!with_shx && !matches!(res, Some(Ok(_))));
             out.push(RMark { call: format!("next#{}", k), first_ev: first, end_ev: end, res, panic: None });
             if stop {
                 break;
@@ -457,6 +459,21 @@ fn unit_with(w: WProg, r: &mut Rng, trunc_stride: usize, op_stride: u32, ctx: &m
                     plan.dev[SHP].chunks = vec![c];
                     plan.dev[SHP].eintr = Some((3, 1));
                     case(RfKind::Plan(plan), true, rs, ctx, ctl);
+                }
+                // a short transfer followed by a failure: one-shot fault at k under 1-, 3- and 5-byte reads
+                if rs == StackCfg::Direct {
+                    for c in [1u32, 3, 5] {
+                        let w1 = World::with_data(Plan { faults: vec![], dev: [DevCfg { chunks: vec![c], eintr: None, capacity: None }, DevCfg::default(), DevCfg::default()] }, fl.shp.clone(), fl.shx.clone(), vec![]);
+                        let _ = traverse(&w1, true, rs, fl.expected.len());
+                        let ops1 = w1.borrow().devices[SHP].ops;
+                        let stride = (ops1 / 400).max(1);
+                        for k in (0..ops1).step_by(stride as usize) {
+                            let mut plan = Plan::default();
+                            plan.dev[SHP].chunks = vec![c];
+                            plan.faults.push(Fault { dev: SHP as u8, at: k, kind: FaultKind::Err((k % 6) as u8), persistent: false });
+                            case(RfKind::Plan(plan), true, rs, ctx, ctl);
+                        }
+                    }
                 }
             }
         }
